@@ -64,6 +64,19 @@ type ScenarioB struct {
 	// the DA layer: list/get errors in several flavours incl. expired deadlines); the height reads normally
 	// once its script is used up.
 	FetchFaults []FetchFault `json:"fetch_faults,omitempty"`
+	// DAStart > 0: the node is configured to start its DA scan at this height (DA.StartHeight); every DA
+	// height of the scenario (1 = lowest) is then DAStart-1 higher, so that a blob placed at "1" sits in the
+	// configured start height itself.
+	DAStart uint64 `json:"da_start,omitempty"`
+	// DAms > 0: the node's DA block time in milliseconds (default 2000).
+	DAms int `json:"da_ms,omitempty"`
+}
+
+func (sc ScenarioB) daBase() uint64 {
+	if sc.DAStart > 0 {
+		return sc.DAStart - 1
+	}
+	return 0
 }
 
 // FetchFault scripts the first examinations of one DA height.
@@ -78,10 +91,17 @@ func GenFetchFaults(t *rapid.T, maxDA uint64) []FetchFault {
 	for n := rapid.IntRange(1, 3).Draw(t, "nff"); n > 0; n-- {
 		ff := FetchFault{DAHeight: uint64(rapid.IntRange(1, int(maxDA)).Draw(t, "ffh"))}
 		for k := rapid.IntRange(1, 3).Draw(t, "ffn"); k > 0; k-- {
-			ff.Outcomes = append(ff.Outcomes, world.FetchOutcome{
+			o := world.FetchOutcome{
 				Kind: rapid.SampledFrom([]string{"listerr", "chunkerr"}).Draw(t, "ffkind"),
-				Err:  rapid.SampledFrom([]string{"", "deadline", "da-deadline", "timeout"}).Draw(t, "fferr"),
-			})
+				Err:  rapid.SampledFrom([]string{"", "deadline", "da-deadline", "timeout", "notfound"}).Draw(t, "fferr"),
+			}
+			if o.Kind == "listerr" && o.Err == "notfound" {
+				// "no blobs at this height" as the answer to the LISTING is the DA layer's way of saying the height
+				// is empty: a node cannot tell that from the truth, so it is not a fault a node can be asked to
+				// survive; only a Get of listed ids may fail that way
+				o.Err = ""
+			}
+			ff.Outcomes = append(ff.Outcomes, o)
 		}
 		out = append(out, ff)
 	}
@@ -136,6 +156,12 @@ func GenB(t *rapid.T, maxChain int, withCrash bool) ScenarioB {
 	default:
 		sc.P2PHeaders = rapid.IntRange(0, n).Draw(t, "p2ph")
 		sc.P2PData = rapid.IntRange(0, n).Draw(t, "p2pd")
+	}
+	if rapid.IntRange(0, 3).Draw(t, "dastart") == 0 {
+		sc.DAStart = rapid.SampledFrom([]uint64{1, 2, 5, 1000, 1 << 33}).Draw(t, "dastartat")
+	}
+	if rapid.IntRange(0, 3).Draw(t, "dams") == 0 {
+		sc.DAms = rapid.SampledFrom([]int{20, 50, 99, 100, 500}).Draw(t, "damsv")
 	}
 	if rapid.IntRange(0, 2).Draw(t, "slowexec") == 0 {
 		sc.ExecMs = rapid.SampledFrom([]int{500, 3000, 7000}).Draw(t, "execms")
@@ -204,7 +230,9 @@ func runB(sc ScenarioB, dir, id string, step func(r *BRun, when string) *world.P
 	return sw.InBubble(func() world.Verdict {
 		root, _ := os.MkdirTemp(dir, "drvb")
 		defer os.RemoveAll(root)
-		c, err := fw.BuildChain(world.NodeOpts{ChainID: "drvb-chain", InitialHeight: sc.InitialHeight, RootDir: root + "/p"}, sc.FullChain())
+		base := sc.daBase()
+		c, err := fw.BuildChain(world.NodeOpts{ChainID: "drvb-chain", InitialHeight: sc.InitialHeight, RootDir: root + "/p", DAStartHeight: sc.DAStart,
+			DABlockTime: time.Duration(sc.DAms) * time.Millisecond}, sc.FullChain())
 		if err != nil {
 			return world.Fail(id+"/chain", "cannot build the proposer chain: %v", err)
 		}
@@ -212,18 +240,21 @@ func runB(sc ScenarioB, dir, id string, step func(r *BRun, when string) *world.P
 		r := &BRun{Sc: sc, C: c}
 		hdrOnDA := map[int]bool{}
 		dataOnDA := map[int]bool{}
-		placements := sc.Placements
+		placements := make([]Placement, len(sc.Placements))
+		for i, pl := range sc.Placements {
+			pl.DAHeight += base
+			placements[i] = pl
+		}
 		if bl := sc.Backlog; bl != nil && bl.Copies > 0 && bl.PerHeight > 0 && bl.Off < len(c.Blocks) {
 			k := uint64((bl.Copies + bl.PerHeight - 1) / bl.PerHeight)
-			placements = make([]Placement, len(sc.Placements))
-			for i, pl := range sc.Placements {
-				if pl.DAHeight >= bl.At {
+			for i, pl := range placements {
+				if pl.DAHeight >= bl.At+base {
 					pl.DAHeight += k
 				}
 				placements[i] = pl
 			}
 			for i := 0; i < bl.Copies; i++ {
-				h := bl.At + uint64(i/bl.PerHeight)
+				h := base + bl.At + uint64(i/bl.PerHeight)
 				da.Inject(h, c.Blocks[bl.Off].HeaderBlob)
 				if h > r.MaxDA {
 					r.MaxDA = h
@@ -246,7 +277,13 @@ func runB(sc ScenarioB, dir, id string, step func(r *BRun, when string) *world.P
 			}
 		}
 		for _, ff := range sc.FetchFaults {
-			da.SetFetchScript(ff.DAHeight, ff.Outcomes)
+			da.SetFetchScript(ff.DAHeight+base, ff.Outcomes)
+		}
+		if sc.DAStart > 0 {
+			r.Labels = append(r.Labels, "configured-da-start")
+		}
+		if sc.DAms > 0 && sc.DAms < 100 {
+			r.Labels = append(r.Labels, "da-block-time<100ms")
 		}
 		if len(sc.FetchFaults) > 0 {
 			r.Labels = append(r.Labels, "da-read-faults")
@@ -284,7 +321,10 @@ func runB(sc ScenarioB, dir, id string, step func(r *BRun, when string) *world.P
 			r.DAStar = b.Height
 		}
 		// the DA double reports heights above its head as "from the future": start with head 0
-		da.ForceHead(0)
+		da.ForceHead(base)
+		if r.MaxDA < base {
+			r.MaxDA = base
+		}
 		f.Start("sync", "retrieve", "hstore", "dstore", "includer")
 		defer func() { f.Stop() }()
 		p2pH, p2pD := 0, 0
@@ -341,15 +381,23 @@ func runB(sc ScenarioB, dir, id string, step func(r *BRun, when string) *world.P
 		da.ForceHead(r.MaxDA + 1)
 		growH(len(c.Blocks))
 		growD(len(c.Blocks))
-		f.Tick(len(c.Blocks) + int(r.MaxDA) + 6 + len(c.Blocks)*(sc.ExecMs/2000+1))
+		// the settle phase is sized in units of the default DA block time (2 s): with a faster DA layer the
+		// same amount of virtual time takes more ticks
+		tk := func(n int) {
+			if sc.DAms > 0 && sc.DAms < 2000 {
+				n = n*2000/sc.DAms + 1
+			}
+			f.Tick(n)
+		}
+		tk(len(c.Blocks) + int(r.MaxDA-base) + 6 + len(c.Blocks)*(sc.ExecMs/2000+1))
 		if sc.Backlog != nil {
-			f.Tick(10 + sc.ExecMs/1000)
+			tk(10 + sc.ExecMs/1000)
 		}
 		select {
 		case f.N.M.VerifDAIncluderCh() <- struct{}{}:
 		default:
 		}
-		f.Tick(2)
+		tk(2)
 		if p := f.Observe(); p != nil {
 			return world.Fail(id+"/"+p.Sig, "at the end: %s", p.Msg)
 		}
